@@ -19,7 +19,11 @@ Python would raise (`KeyError` for an unknown parent, `AttributeError` for a mis
 `_deserialise_node → node_factory → Node.__init__`, which all receive the inputs as `**kwargs`; the
 list of such names is generated from the source, `Gen/ExportParams.lean`).
 
-Payloads (`PV`): None, bool, int, str, float (NaN flagged: `nan != nan`), opaque objects compared by
+Payloads (`PV`): None, bool, int, str, float (NaN flagged: `nan != nan`), values of types that
+`json.dumps` rejects and that compare by VALUE (`val`: bytes, complex, set / frozenset of such leaves,
+instances of an importable class with `__eq__` over its state - no NaN inside; leaves of the model:
+kind = type name, repr = canonical text; `set` and `frozenset` of equal content are different kinds,
+stricter than Python), opaque objects compared by
 identity (`atom`: functions and other callables; `byRef` = dill pickles it by reference), objects that
 have a `serialise()` method (`hook`: `Node.serialise` stores the method's result instead of the
 object, top level only), lists, tuples, dicts with str / int / bool / None keys.
@@ -46,6 +50,8 @@ inductive PV
   | str (s : String)
   | float (nan : Bool) (repr : String)   -- `repr` = float.hex(), "nan" for NaN
   | atom (byRef : Bool) (id : Nat)       -- object compared by identity; `id` = which object
+  | val (kind repr : String)             -- value of a type json rejects, compared by value: bytes, complex, set, frozenset,
+                                         -- instance of a class with `__eq__` on its state; `kind` = type name, `repr` = canonical text
   | hook (id : Nat) (ser : PV)           -- object `id` with a method `serialise()` returning `ser`
   | list (l : List PV)
   | tuple (l : List PV)
@@ -88,6 +94,7 @@ mutual
 /-- `json.dumps` accepts the value (otherwise it raises `TypeError`) -/
 def jsonable : PV → Bool
   | .atom _ _ => false
+  | .val _ _ => false
   | .hook _ _ => false
   | .list l => jsonableL l
   | .tuple l => jsonableL l
@@ -103,8 +110,9 @@ end
 
 mutual
 /-- `dill.load(dill.dump(v))`: containers, numbers and strings are rebuilt with the same
-structure; an object pickled by reference is the same object again, one pickled by value is a new
-object (`fresh id`). -/
+structure; a `val` leaf (bytes, complex, set, instance of an importable value class) is rebuilt as
+an equal value of the same type; an object pickled by reference is the same object again, one
+pickled by value is a new object (`fresh id`). -/
 def dillPV (fresh : Nat → Nat) : PV → PV
   | .atom byRef id => if byRef then .atom byRef id else .atom byRef (fresh id)
   | .hook id ser => .hook (fresh id) (dillPV fresh ser)
@@ -132,6 +140,7 @@ def pvEqIn (shared : Bool) : PV → PV → Bool
   | .str a, .str b => a == b
   | .float na ra, .float nb rb => (shared || !(na || nb)) && na == nb && ra == rb
   | .atom _ a, .atom _ b => a == b
+  | .val ka a, .val kb b => ka == kb && a == b
   | .hook a _, .hook b _ => a == b
   | .list a, .list b => pvEqL shared a b
   | .tuple a, .tuple b => pvEqL shared a b
